@@ -15,6 +15,7 @@ func init() {
 		c08SwitchOnlyOnUpgrade(c)
 		c08Probe(c)
 		c08Cleanup(c)
+		c08UpgradeBranchWiring(c, "C08.4b")
 		c08AtomicClaim(c)
 		c08ListenerBeforeReader(c)
 		c01Handoff(c) // C08.7 = C01.7
